@@ -16,6 +16,7 @@ import (
 func init() {
 	reg("H_C04_fee", H_C04_fee)
 	reg("H_C04_compute_amount", H_C04_compute_amount)
+	reg("H_C04_count", H_C04_count)
 }
 
 // recipient strings: two valid accounts (may repeat), the upper-case spelling of a valid one (valid bech32),
@@ -192,4 +193,44 @@ func H_C04_compute_amount() {
 	verif.Cover("positive")
 	c := verif.ZOf(got)
 	verif.Assert(verif.ZLe(verif.ZMul(verif.ZInt(10000), c), prod) && verif.ZLt(prod, verif.ZMul(verif.ZInt(10000), verif.ZAdd(c, verif.ZInt(1)))), "fee-is-floor")
+}
+
+// H_C04_count: the entry-count limit on its own: lists of 0..8 plain entries (bps any value in [1,100], amounts large enough
+// for every fee to be positive): refused iff more than five entries; otherwise every entry is credited.
+func H_C04_count() {
+	ctx := context.Background()
+	l := &Ledger{}
+	fc, err := actionctrl.NewFeeController(nopLogger{}, &events{}, l)
+	must(err)
+	A := verif.BigInt("A")
+	verif.Assume(A.GT(math.NewInt(1000000)) && A.LT(math.NewIntWithDecimal(1, 70)))
+	ta, err := core.NewTransferAttributes(core.PROTOCOL_IBC, "channel-0", "uusdc", A)
+	must(err)
+	l.Set(core.ModuleAddress, "uusdc", A)
+	n := verif.Choose("n", 9)
+	b := verif.Uint32("bps")
+	verif.Assume(b >= 1 && b <= 100)
+	infos := make([]*actiontypes.FeeInfo, 0, 8)
+	for i := 0; i < n; i++ {
+		r := feeR1
+		if i%2 == 1 {
+			r = feeR2
+		}
+		infos = append(infos, &actiontypes.FeeInfo{Recipient: r.String(), FeeType: &actiontypes.FeeInfo_BasisPoints_{BasisPoints: &actiontypes.FeeInfo_BasisPoints{Value: b}}})
+	}
+	action := &core.Action{Id: core.ACTION_FEE}
+	must(action.SetAttributes(&actiontypes.FeeAttributes{FeesInfo: infos}))
+	err = fc.HandlePacket(ctx, &types.ActionPacket{TransferAttributes: ta, Action: action})
+	if err != nil {
+		verif.Cover("refused")
+		verif.Assert(n > actiontypes.MaxFeeRecipients, "up-to-five-entries-are-accepted")
+		verif.Assert(len(l.sends) == 0, "nothing-paid-when-refused")
+		return
+	}
+	verif.Cover("accepted")
+	verif.Assert(n <= actiontypes.MaxFeeRecipients, "more-than-five-entries-are-refused")
+	fee := verif.ZFloorDiv(verif.ZMul(verif.ZOf(A), verif.ZU64(uint64(b))), 10000)
+	n1, n2 := int64((n+1)/2), int64(n/2)
+	verif.Assert(verif.ZEq(verif.ZOf(l.Bal(feeR1, "uusdc")), verif.ZMul(verif.ZInt(n1), fee)) && verif.ZEq(verif.ZOf(l.Bal(feeR2, "uusdc")), verif.ZMul(verif.ZInt(n2), fee)), "every-entry-is-credited")
+	verif.Assert(verif.ZEq(verif.ZOf(ta.DestinationAmount()), verif.ZSub(verif.ZOf(A), verif.ZMul(verif.ZInt(int64(n)), fee))), "forwarded-amount-is-A-minus-fees")
 }
